@@ -35,6 +35,7 @@
 #include <limits.h>
 #include <stdio.h>
 #include <string.h>
+#include <sys/stat.h>
 #include <unistd.h>
 #include <utmp.h>
 
@@ -64,12 +65,18 @@ static char snoopy_util_utmp_filePath[PATH_MAX] = _PATH_UTMP;
 int snoopy_util_utmp_findUtmpEntryByLine (char const * const ttyLine, struct utmp * const resultEntryBuf)
 {
     struct utmp   curEntry;
+    struct stat   utmpStat;
     int           utmpFd;
     int           retVal = SNOOPY_FALSE;
 
     // Do the search with a private descriptor (same matching rule as getutline(): a login or user process on that line)
     utmpFd = open(snoopy_util_utmp_filePath, O_RDONLY | O_CLOEXEC | O_NOCTTY | O_NONBLOCK);   // Never wait in open(): not for a lease to be given up, not for the writer of a FIFO
     if (-1 == utmpFd) {
+        return SNOOPY_FALSE;
+    }
+    // Only a regular file has an end we are certain to reach (a device in its place would feed the loop below for ever)
+    if ((0 != fstat(utmpFd, &utmpStat)) || !S_ISREG(utmpStat.st_mode)) {
+        close(utmpFd);
         return SNOOPY_FALSE;
     }
     while (sizeof(curEntry) == read(utmpFd, &curEntry, sizeof(curEntry))) {
